@@ -654,8 +654,18 @@ func TestClientChunkingIndependent(t *testing.T) {
 				return damage(rec.Bytes())
 			}
 			u, _ := url.Parse("ws://example.com" + c.Path)
-			br, hs, err := cc.dialer().Upgrade(peer, u)
+			d := cc.dialer()
+			// what the dialer hands to OnStatusError (status, reason and a reader over the response) is part
+			// of the outcome too: it must not depend on how the response arrived
+			seen := ""
+			d.OnStatusError = func(status int, reason []byte, resp io.Reader) {
+				why := string(reason) // the reason slice lives in the read buffer: take it before reading on
+				body, rerr := io.ReadAll(io.LimitReader(resp, int64(len(peer.resp))))
+				seen = fmt.Sprintf(" onStatusError(%d %q %q readerr=%v)", status, why, body, rerr)
+			}
+			br, hs, err := d.Upgrade(peer, u)
 			var rest []byte
+			defer func() { _ = seen }()
 			if err == nil {
 				if br != nil {
 					rest, _ = io.ReadAll(br)
@@ -664,7 +674,7 @@ func TestClientChunkingIndependent(t *testing.T) {
 					rest, _ = io.ReadAll(peer)
 				}
 			}
-			return fmt.Sprintf("err=%v %s", err, renderHS(hs)), append([]byte(nil), peer.req.Bytes()...), rest
+			return fmt.Sprintf("err=%v %s%s", err, renderHS(hs), seen), append([]byte(nil), peer.req.Bytes()...), rest
 		}
 		wantOut, wantReq, wantRest := run(nil, 0, 0)
 		if strings.HasPrefix(wantOut, "err=<nil>") && !bytes.Equal(wantRest, trailing) {
